@@ -232,6 +232,19 @@ def subprocess_tree(job):
                 if d:
                     bad.append((cfg, f"tree '{name}': generated files differ between PYTHONHASHSEED={seeds[0]} and {s}: {d[:4]}"))
                     break
+        # the process environment is a configuration too: an ASCII default encoding, another working directory
+        for cfg_name, kw in (("ascii-locale", {"ascii_locale": True}), ("foreign-cwd", {"foreign_cwd": True})):
+            if bad:
+                break
+            rc, out = realflow.run_generate(root, hashseed=seeds[0], **kw)
+            runs += 1
+            cfg = {"tree": name, "config": cfg_name}
+            if rc != 0:
+                bad.append((cfg, f"tree '{name}': `protocol.py generate` failed in configuration {cfg_name}: {out[-300:]}"))
+                break
+            d = realflow.diff_snapshots(ref, realflow.snapshot(realflow.generated_dir(root)))
+            if d:
+                bad.append((cfg, f"tree '{name}': generated files differ in configuration {cfg_name}: {d[:4]}"))
         if not bad:
             import json
 
@@ -305,7 +318,7 @@ def run(tier, seed):
         "rule": "per tree: every os.walk directory order (E2 choice tree: 3! x 2! x 1) x every iteration-order policy of the "
         "import sets / sorted() input, + output dir pre-populated (identical, garbage) + same generator object twice, all "
         "compared file-by-file with the reference run; real `protocol.py generate` under 8 hash seeds (block chosen by "
-        "VERIF_SEED) compared byte-for-byte, then a fresh interpreter checks every declared type; plus every valid program "
+        "VERIF_SEED), under an ASCII default encoding and from a foreign working directory, compared byte-for-byte, then a fresh interpreter checks every declared type; plus every valid program "
         "of the E3 universe must generate and import.  Each run/configuration is a distinct case.",
         "samples": [{"tree": tl[1][0], "files": {k: [n.xml() for n in v][:2] for k, v in tl[1][1].items()}}],
     }
